@@ -148,7 +148,7 @@ def run(rep, tier):
     open(zcfg, "w").write('SPECIFICATION Spec\nCONSTANTS\n  NrSet = %s\n  NtSet = %s\n  Ops = {"residualGive", "smootherTake", "xsmootherTake", "residualTake", "smootherGive", "xsmootherGive", "directGiveAsm", "smootherGiveAsm", "xsmootherGiveAsm"}\n  EmitTables = FALSE\n  FIXED = {"F19", "F21"}\n'
                           'INVARIANTS EpochDisjoint AllRadialOnce AllCirclesOnce GiveSolvesOnce\n' % (znr, znt))
     z = vlib.tlc("ZebraSchedule", zcfg, workers=8, heap="8g", tag="zebra", timeout=3000)
-    rep.add_tlc(z, "ZebraSchedule.tla: EpochDisjoint, AllRadialOnce, AllCirclesOnce for every shape nr in %s, ntheta in %s, 2..9 circles, both boundary modes" % (znr, znt))
+    rep.add_tlc(z, "ZebraSchedule.tla (9 operators): EpochDisjoint, AllRadialOnce, AllCirclesOnce, GiveSolvesOnce for every shape nr in %s, ntheta in %s, 2..9 circles, both boundary modes" % (znr, znt))
     if z.rc == 12:
         rep.violation("model:Zebra:" + z.violation, "ZebraSchedule.tla: %s violated\n%s" % (z.violation, vlib.counterexample(z)[:1200]), replay={"spec": "ZebraSchedule"})
     elif z.rc != 0:
